@@ -218,6 +218,8 @@ func indexIngest(repo Repo, index *types.Index, conf config.Config, locked bool)
 					types.AnnotReferrerSubject: refSubj.String(),
 				}
 				index.AddDesc(newDesc)
+				// track the converted response so later merges for the same subject include it
+				referrerResponse[refSubj.String()] = newDesc
 				mod = true
 			}
 			// if the response cannot be quickly converted, save for later
